@@ -61,7 +61,7 @@ fn hc(thorough: bool) -> HistCheck<'static> {
 
 pub fn run(ctx: &Ctx, col: &Collector) -> Meta {
     let h = hc(ctx.thorough);
-    run_hist(ctx, col, &h, ctx.n(5000, 80_000));
+    run_hist(ctx, col, &h, ctx.n(5000, 30_000));
     Meta {
         level: "exploration",
         rule: "random histories containing disable + update followed by any mix of update, rekey, prune, master-key / public-key round-trips (public key re-derived from the deserialized master key), key generation, refresh and encapsulation; after every operation that yields a public key the driver probes encapsulation for every disabled attribute (alone and conjoined with an enabled attribute of another dimension): it must fail once the disable is effective, while policies without disabled attributes still encapsulate; activation flags in the serialized master key and the absence of the right in the serialized public key are compared with the model; earlier encapsulations must stay openable and refresh must succeed. Non-trivial = history in which a public key was produced by an operation other than the first update after the disable (the flag has to be carried) and a probe was refused; distinct by the whole case".into(),
